@@ -398,20 +398,21 @@ Definition emit_arg (n : anode) : outcome aarg :=
   | _ => Err NotImplementedError
   end.
 
-(* ast_utils.py:emit_ann_assign — the new AnnAssign has no _location; value = arg.default if attached *)
+(* ast_utils.py:emit_ann_assign — the new AnnAssign has no _location; value = arg.default if attached.
+   An arg without annotation gives AnnAssign(annotation=None), which PyAst cannot carry: declined. *)
+Definition ann_assign_of_arg (a : aarg) : outcome astmt :=
+  match aa_ann a with
+  | Some e => Ok (AAnnAssign [] None (EName (aa_name a)) e (aa_default a))
+  | None => Err Unmodelled
+  end.
+
 Definition emit_ann_assign (n : anode) : outcome astmt :=
   match n with
   | NStmt (AAnnAssign i l t a v) => Ok (AAnnAssign i l t a v)
-  | NArg a => Ok (AAnnAssign [] None (EName (aa_name a))
-                             (match aa_ann a with Some e => e | None => EConst VNone end)
-                             (aa_default a))
-  | NStmt (AArgS a) => Ok (AAnnAssign [] None (EName (aa_name a))
-                                      (match aa_ann a with Some e => e | None => EConst VNone end)
-                                      (aa_default a))
+  | NArg a => ann_assign_of_arg a
+  | NStmt (AArgS a) => ann_assign_of_arg a
   | _ => Err NotImplementedError
   end.
-(* note: an arg without annotation gives AnnAssign(annotation=None), which PyAst cannot carry; the model
-   writes the constant None there and SyncProps never reaches this function *)
 
 (* ast_utils.py:get_value as RewriteAtQuery.visit_FunctionDef uses it: on an AnnAssign it is
    NoneStr (a raw str) when value is None, else the value node; on an ast.arg it is the arg itself *)
@@ -904,6 +905,31 @@ Definition run_locate (fn : sexp) (args : list sexp) : option sexp :=
       let? q := dec_loc q in
       let? m := dec_module m in
       Some (if supported m then enc_outcome (enc_option enc_view) (Ok (resolve q m)) else unmodelled)
+    | _ => None
+    end
+  else if is_sym "emit_arg" fn then
+    (* emit_arg(find_in_ast(q, tree)) *)
+    match args with
+    | [q; m] =>
+      let? q := dec_loc q in
+      let? m := dec_module m in
+      Some (if supported m then
+              enc_outcome (enc_aarg true)
+                          (do r <- find_in_ast q (annotate m);
+                           match r with Some (NMod _) => Err NotImplementedError | Some n => emit_arg n | None => Err NotImplementedError end)
+            else unmodelled)
+    | _ => None
+    end
+  else if is_sym "emit_ann_assign" fn then
+    match args with
+    | [q; m] =>
+      let? q := dec_loc q in
+      let? m := dec_module m in
+      Some (if supported m then
+              enc_outcome (enc_astmt true)
+                          (do r <- find_in_ast q (annotate m);
+                           match r with Some n => emit_ann_assign n | None => Err NotImplementedError end)
+            else unmodelled)
     | _ => None
     end
   else if is_sym "rewrite" fn then
